@@ -1107,7 +1107,7 @@ class Reader(ABC):
         # Check whether scanline number increases monotonically
         nums = self.scans["scan_line_number"]
         results.update({"t": self._times_as_np_datetime64.copy(), "n": nums})
-        if np.any(np.diff(nums) < 0):
+        if np.any(np.diff(nums.astype(int)) < 0):
             LOG.error("Cannot perform timestamp correction. Scanline number "
                       "does not increase monotonically.")
             results["fail_reason"] = "Scanline number jumps backwards"
